@@ -1014,7 +1014,20 @@ func bigEndianTerms(p *Prog, fn *ssa.Function) (string, bool) {
 // p0.values[i] - wherever they were produced (in the function, in a helper,
 // through encoding/binary). It returns the term of element 0.
 func resultBigEndian(p *Prog, fn *ssa.Function, k int64) (string, bool) {
-	const n = 2
+	first := ""
+	for _, n := range append([]int{2}, extraSizes(fn)...) {
+		base, ok := resultBigEndianN(p, fn, k, n)
+		if !ok {
+			return "", false
+		}
+		if first == "" {
+			first = base
+		}
+	}
+	return first, true
+}
+
+func resultBigEndianN(p *Prog, fn *ssa.Function, k int64, n int) (string, bool) {
 	in := symInterp(p)
 	in.PathBind["p0.byteSize"] = int64Val(k)
 	in.PathBind["len(p0.variables)"] = int64Val(0)
